@@ -274,9 +274,31 @@ theorem reach_run {s s' : St} (h : Reach s) : ∀ {as : List Act}, run s as = so
 def placedOn (s : St) (c : Chan) : List Sid := (s.placed.filter (fun p => p.1 == c)).map (·.2)
 
 /-- number of placements made by Send g -/
-def placedBy (s : St) (g : Sid) : Nat := (s.placed.filter (fun p => p.2 == g)).length
+def placedBy (s : St) (g : Sid) : Nat := s.placed.countP (fun p => p.2 == g)
 
 /-- the part of `sendCases` that `cases` still covers -/
 def activeCases (s : St) : List Chan := s.sendCases.take s.active
+
+
+/-! ### Vocabulary for statements about the chronological history `tr` -/
+
+/-- some occurrence of `a` strictly precedes some occurrence of `b` -/
+def Before (tr : List Ev) (a b : Ev) : Prop := List.Sublist [a, b] tr
+
+/-- the placements recorded in a history, in order -/
+def placesOf (tr : List Ev) : List (Chan × Sid) :=
+  tr.filterMap (fun e => match e with | .place c g => some (c, g) | _ => none)
+
+/-- what the receiver of `c` took, in order -/
+def recvsOf (c : Chan) (tr : List Ev) : List Sid :=
+  tr.filterMap (fun e => match e with | .recv c' g => if c' = c then some g else none | _ => none)
+
+/-- what was put into `c`, in order -/
+def placesOn (c : Chan) (tr : List Ev) : List Sid :=
+  tr.filterMap (fun e => match e with | .place c' g => if c' = c then some g else none | _ => none)
+
+/-- number of placements made by Send g -/
+def placesBy (g : Sid) (tr : List Ev) : Nat :=
+  tr.countP (fun e => match e with | .place _ g' => g' == g | _ => false)
 
 end Aqv.Feed
